@@ -14,7 +14,7 @@ WT = "/tmp/verif_seeded_wt_%d" % os.getpid()
 
 
 def main():
-    ids = sys.argv[1:] or sorted(d for d in os.listdir(os.path.join(VERIF, "seeded")) if os.path.isdir(os.path.join(VERIF, "seeded", d)))
+    ids = sys.argv[1:] or sorted(d for d in os.listdir(os.path.join(VERIF, "seeded")) if os.path.isdir(os.path.join(VERIF, "seeded", d)) and not d.startswith("_"))
     subprocess.check_call(["git", "-C", "/repo", "worktree", "add", "-q", "--detach", WT, "HEAD"])
     results = {}
     path = os.path.join(VERIF, "seeded", "RESULTS.json")
